@@ -497,6 +497,18 @@ func runC10(t *testing.T, c *hsCase) (res c10Result) {
 			res.staleSynLoop = n >= 3 && all
 		}
 		if viol == "" && !converged {
+			// the recorded stale-SYN-other-N mechanism, also when no data got
+			// through: the live server attempt runs with the N of a stale
+			// SYN that was queued towards it, not with the client's
+			if lc := liveConn[1]; lc != nil {
+				if w := lc.VerifWindow(); int(w.N) != c.N {
+					for _, p := range c.StaleC2S {
+						if p.Type == "SYN" && p.Val == int(w.N) {
+							res.staleN = true
+						}
+					}
+				}
+			}
 			for i, lc := range liveConn {
 				if lc != nil {
 					if w := lc.VerifWindow(); w.Size >= w.N {
